@@ -635,21 +635,41 @@ func catalogue() []Edit {
 		}
 	}
 	// ---- union
-	for _, v := range []string{"new_union", "existing_union"} {
-		v := v
-		add("union_second_default", v, func(p *GProg, fi int) bool {
-			f := p.Files[fi]
-			if v == "new_union" {
-				f.Structs = append(f.Structs, &GStruct{Kind: "union", Name: "ZZUn", Fields: []*GField{{ID: 1, Name: "a", T: base("i32"), Default: "1"}, {ID: 2, Name: "b", T: base("i32"), Default: "2"}}})
-				return true
+	// every requiredness of the two default-carrying members (CheckUnions only warns about `required`)
+	reqs := []string{"", "optional", "required"}
+	reqName := map[string]string{"": "default", "optional": "optional", "required": "required"}
+	for _, shape := range []string{"new_union", "existing_union", "second_union_in_file", "plain_member_between"} {
+		for _, r1 := range reqs {
+			for _, r2 := range reqs {
+				shape, r1, r2 := shape, r1, r2
+				if shape != "new_union" && r1 != "required" && r2 != "required" && !(r1 == "" && r2 == "") {
+					continue // the other shapes: the required combinations and the plain one
+				}
+				add("union_second_default", shape+"/"+reqName[r1]+"_"+reqName[r2], func(p *GProg, fi int) bool {
+					f := p.Files[fi]
+					a := &GField{ID: 1, Name: "zz_a", Req: r1, T: base("i32"), Default: "1"}
+					b := &GField{ID: 2, Name: "zz_b", Req: r2, T: base("string"), Default: `"x"`}
+					switch shape {
+					case "new_union":
+						f.Structs = append(f.Structs, &GStruct{Kind: "union", Name: "ZZUn", Fields: []*GField{a, b}})
+					case "second_union_in_file":
+						f.Structs = append(f.Structs, &GStruct{Kind: "union", Name: "ZZUn0", Fields: []*GField{{ID: 1, Name: "x", T: base("i32")}, {ID: 2, Name: "y", Req: "required", T: base("i32"), Default: "3"}}},
+							&GStruct{Kind: "union", Name: "ZZUn", Fields: []*GField{a, b}})
+					case "plain_member_between":
+						b.ID = 3
+						f.Structs = append(f.Structs, &GStruct{Kind: "union", Name: "ZZUn", Fields: []*GField{a, {ID: 2, Name: "zz_m", Req: "required", T: base("i64")}, b}})
+					case "existing_union":
+						u := firstOf(f, "union")
+						if u == nil {
+							return false
+						}
+						a.ID, b.ID = maxID(u.Fields)+1, maxID(u.Fields)+2
+						u.Fields = append(u.Fields, a, b)
+					}
+					return true
+				})
 			}
-			u := firstOf(f, "union")
-			if u == nil {
-				return false
-			}
-			u.Fields = append(u.Fields, &GField{ID: maxID(u.Fields) + 1, Name: "zz_a", T: base("i32"), Default: "1"}, &GField{ID: maxID(u.Fields) + 2, Name: "zz_b", T: base("string"), Default: `"x"`})
-			return true
-		})
+		}
 	}
 	// ---- include graph
 	for n := 1; n <= 4; n++ {
@@ -924,6 +944,28 @@ func aimedCases() []*Case {
 		if v.valid {
 			c.Rule = "aimed_control_success_elsewhere"
 		}
+		out = append(out, c)
+	}
+	for _, v := range []struct{ n, l string }{
+		{"required_first", "union U { 1: required i32 a = 1, 2: i32 b = 2 }"}, {"required_second", "union U { 1: i32 a = 1, 2: required i32 b = 2 }"},
+		{"required_both", "union U { 1: required i32 a = 1, 2: required string b = 'x' }"}, {"required_optional", "union U { 1: required i32 a = 1, 2: optional i32 b = 2 }"},
+		{"optional_required", "union U { 1: optional i32 a = 1, 2: required i32 b = 2 }"},
+		{"required_then_plain_then_default", "union U { 1: required i32 a = 1, 2: required i64 m, 3: i32 b = 2 }"},
+		{"second_union_in_file", "union V { 1: i32 x, 2: required i32 y = 3 }\nunion U { 1: required i32 a = 1, 2: i32 b = 2 }"}} {
+		out = append(out, mk("union_second_default/"+v.n, false, false, fl{"main.thrift", strings.Split(v.l, "\n")}))
+	}
+	for _, r := range []bool{false, true} {
+		n := "union_second_default/required_in_included_file"
+		if r {
+			n += "_r"
+		}
+		out = append(out, mk(n, r, false, fl{"main.thrift", []string{`include "un.thrift"`, "struct M { 1: un.U u }"}},
+			fl{"un.thrift", []string{"union U { 1: required i32 a = 1, 2: required i32 b = 2 }"}}))
+	}
+	// control: one default on a required member is only a warning
+	{
+		c := mk("union_second_default/control_single_required_default", false, false, fl{"main.thrift", []string{"union U { 1: required i32 a = 1, 2: required i32 b }"}})
+		c.Valid, c.Rule = true, "aimed_control_union_single_default"
 		out = append(out, c)
 	}
 	for _, r := range []bool{false, true} {
